@@ -166,7 +166,18 @@ func c19Worker(in []byte) interface{} {
 	writeFiles(d1, nf)
 	ast1, err := compileMain(d1, nf)
 	if err != nil {
-		add("edited-not-compiling:"+e.Kind+":"+classifyParseErr(err.Error(), ""), fmt.Sprintf("after %v the program no longer compiles: %v", e, err))
+		cls := classifyParseErr(err.Error(), "")
+		if cls == "ArgumentNotSuppliedError" || cls == "NoSuchOutputError" || cls == "MissingOutputError" ||
+			strings.Contains(err.Error(), "wildcard binding") {
+			// a parameter supplied implicitly, by name, through `* = X`
+			for _, text := range nf {
+				if strings.Contains(text, "* = ") || strings.Contains(text, "*= ") {
+					cls = "wildcard-supplied-parameter"
+					break
+				}
+			}
+		}
+		add("edited-not-compiling:"+e.Kind+":"+cls, fmt.Sprintf("after %v the program no longer compiles: %v", e, err))
 		return res
 	}
 	g1 := callGraphJSON(ast1)
